@@ -714,7 +714,7 @@ def generate(rng):
                       "break_annot": (rng.randrange(k) if (faulty and k > 1 and rng.random() < 0.3) else None),
                       "as": rng.choice(["list", "list", "tuple", "generator", "iter"])}
             elif r < 0.55:
-                k = rng.randint(1, 3)
+                k = rng.choice([0, 1, 1, 2, 2, 3])  # the first dimension of coord is the number of repeats; zero is a length too
                 shape = (k, m.n, 3) if m.kind == "array" else (k, m.m, m.n, 3)
                 op = {"op": "repeat", "src": a, "dst": dst, "k": k, "coord": gen_coord(rng, shape).tolist()}
             elif r < 0.59:
